@@ -154,13 +154,36 @@ func worker(c *mon.Ctx) {
 		stress(c, label, sets, M, rounds, heavyEvery, st)
 		perMInfo = append(perMInfo, map[string]interface{}{"M": M, "rounds": rounds, "calls": st.n - before, "wall_s": round3(time.Since(t).Seconds())})
 	}
+	// big-input phase (inputs > 64 KiB, see buildBigCalls): every child runs it, nothing is thinned
+	tBig := time.Now()
+	bigSets := make([][]*call, bigGoroutines)
+	for g := range bigSets {
+		bigSets[g] = buildBigCalls(c.Seed, g)
+	}
+	bigSeq, bigUnstable, bigErrs := phase1(c, bigSets, reps)
+	c.Count("sequential_calls", int64(bigSeq))
+	bigRounds := c.Pick(25, 250)
+	if raceEnabled {
+		bigRounds = c.Pick(2, 20) // a big LZ4 compression costs 10–50 ms under -race
+	}
+	if runtime.GOMAXPROCS(0) < 8 {
+		bigRounds = (bigRounds + 3) / 4
+	}
+	generalCalls := st.n
+	stress(c, label, bigSets, bigGoroutines, bigRounds, 1, st)
+	bigInfo := map[string]interface{}{
+		"goroutines": bigGoroutines, "rounds": bigRounds, "calls": st.n - generalCalls, "calls_per_goroutine_round": len(bigSets[0]),
+		"sequential_results_that_are_errors": bigErrs, "sequential_not_reproducible": bigUnstable,
+		"max_simultaneous_lz4_compressions_of_more_than_64KiB": st.bigMax, "wall_s": round3(time.Since(tBig).Seconds()),
+	}
+	c.Max("max_overlap_big_lz4_compressions", int64(st.bigMax))
 	c.Eval(int(st.n))
 	var globalMax int32
 	noOverlap := []string{}
 	for i, sh := range sharedList {
 		c.Count("calls_"+sh.name, st.calls[i])
 		c.Max("max_overlap_"+sh.name, int64(st.maxOv[i]))
-		if st.maxOv[i] > globalMax {
+		if i < idBigLz4c && st.maxOv[i] > globalMax { // the big-input phase has its own requirement
 			globalMax = st.maxOv[i]
 		}
 		if st.maxOv[i] < 2 {
@@ -169,7 +192,7 @@ func worker(c *mon.Ctx) {
 	}
 	c.Count("mismatches", st.bad)
 	c.Set("child_"+label, map[string]interface{}{
-		"race_build": raceEnabled, "gomaxprocs": runtime.GOMAXPROCS(0), "shared_codecs": len(sharedList),
+		"race_build": raceEnabled, "gomaxprocs": runtime.GOMAXPROCS(0), "shared_codecs": len(sharedList), "big_input_phase": bigInfo,
 		"calls_per_goroutine_round_avg": ncalls / maxGoroutines, "sequential_calls": seqTotal, "sequential_results_that_are_errors": seqErrors,
 		"sequential_not_reproducible": unstable, "concurrent_calls": st.n, "mismatches": st.bad,
 		"max_overlap_any_codec": globalMax, "codecs_never_overlapped": noOverlap, "per_M": perMInfo,
@@ -262,7 +285,7 @@ func supervise(c *mon.Ctx) {
 		}
 		done := make(chan error, 1)
 		go func() { done <- cmd.Wait() }()
-		limit := time.Duration(c.Pick(110, 840)) * time.Second // watchdog only: its firing is inconclusive, never a verdict
+		limit := time.Duration(c.Pick(170, 840)) * time.Second // watchdog only: its firing is inconclusive, never a verdict
 		var werr error
 		timedOut := false
 		select {
@@ -310,6 +333,9 @@ func supervise(c *mon.Ctx) {
 			var info struct {
 				Race       bool  `json:"race_build"`
 				MaxOverlap int32 `json:"max_overlap_any_codec"`
+				Big        struct {
+					Max int32 `json:"max_simultaneous_lz4_compressions_of_more_than_64KiB"`
+				} `json:"big_input_phase"`
 			}
 			if raw, ok := rep.Extra["child_"+ch.label]; ok {
 				json.Unmarshal(raw, &info)
@@ -321,6 +347,10 @@ func supervise(c *mon.Ctx) {
 			if info.MaxOverlap < 2 {
 				exercised = false
 				notExercised = append(notExercised, ch.label)
+			}
+			if info.Big.Max < 2 {
+				exercised = false
+				notExercised = append(notExercised, ch.label+"(big-input phase: never two LZ4 compressions of >64 KiB at once)")
 			}
 		}
 		c.Set("supervisor_wall_s_"+ch.label, round3(wall))
@@ -381,7 +411,7 @@ func supervise(c *mon.Ctx) {
 	}
 	if !exercised && c.ViolationCount() == 0 {
 		os.RemoveAll(scratch)
-		c.Fatal("no shared codec ever had two calls inside it at the same time in %v: the run did not exercise the property", notExercised)
+		c.Fatal("the run did not exercise the property (no two calls inside a shared codec at the same time) in %v", notExercised)
 	}
 }
 
